@@ -155,6 +155,11 @@ func printResult(res *RunResult, full bool) {
 		if v.Stack != "" {
 			fmt.Print(v.Stack)
 		}
+		if os.Getenv("VERIF_SCHEDULE") != "" {
+			for _, l := range v.Schedule {
+				fmt.Println("   sched:", l)
+			}
+		}
 	}
 	for k, n := range seen {
 		if n > 1 {
